@@ -131,9 +131,10 @@ func runCase(run *vh.Run, idx int, c Case) *obs {
 			return
 		}
 		// coverage of the unions once the directives are applied (a member fragment left without content covers nothing)
+		partialUnion := false
 		if pa, ok := prunedForAnalysis(&c, frags); !ok || hasPartialUnion(&pa, map[string]FragDef{}) {
-			run.Hist("model:not-evaluated:partial-union-coverage")
-			return
+			run.Hist("model:partial-union-coverage")
+			partialUnion = true
 		}
 		ref, refErr := runReference(&c, w)
 		if refErr != "" {
@@ -181,6 +182,9 @@ func runCase(run *vh.Run, idx int, c Case) *obs {
 			answerTerm != "None" && flatInScope(flatSS, "Query", retMap(c.Services))
 		if inScope {
 			run.Hist("model:premises-of-transparency-theorem-hold")
+		}
+		if partialUnion && inScope {
+			run.Hist("model:premises-hold-with-partial-union-coverage")
 		}
 		ob.coq = fmt.Sprintf("mk_case %s %s %s %s %s %s %s %s (Some %s) %s %s", info.term, calls, orgs, qTerm, vh.CoqBool(info.explicit),
 			flatTerm, planTerm, answerTerm, vh.CoqJSON(refC), vh.CoqBool(everySvcFederates), vh.CoqBool(inScope))
@@ -280,6 +284,8 @@ func runCase(run *vh.Run, idx int, c Case) *obs {
 				run.Hist("oracle:pruned-query-not-expressible")
 			}
 		}
+		// a redeployment that moves fields between services, then a schema refresh, then the request again (own gateway)
+		defer redeployRefresh(run, idx, &c, w, deepCopyJSON(gw))
 		// a schema refresh landing between planning and the first hop changes nothing (last use of g)
 		defer refreshMidRequest(run, idx, &c, g, w, ob.res.subs, ob.res.plan, deepCopyJSON(gw))
 		// the caller gives up while a sub-query is in flight: an error, not a partial answer (runs before the refresh)
@@ -354,15 +360,18 @@ func flatInScope(ss *graphql.SelectionSet, typ string, rets map[string]fedgen.Re
 			if s.SelectionSet == nil || len(s.SelectionSet.Selections) > 0 {
 				return false
 			}
-			for _, m := range fedgen.UnionMembers[ret.Target] {
-				found := false
-				for _, f := range s.SelectionSet.Fragments {
-					if f.On == m && len(f.Directives) == 0 && f.SelectionSet != nil && len(f.SelectionSet.Selections) > 0 &&
-						len(f.SelectionSet.Fragments) == 0 && flatInScope(f.SelectionSet, m, rets) {
-						found = true
-					}
+			// (since round 7 the theorem covers union selections that leave members out: at least one fragment, every
+			// fragment on a member of the union, undirected, non-empty and flat)
+			if len(s.SelectionSet.Fragments) == 0 {
+				return false
+			}
+			for _, f := range s.SelectionSet.Fragments {
+				member := false
+				for _, m := range fedgen.UnionMembers[ret.Target] {
+					member = member || f.On == m
 				}
-				if !found {
+				if !member || len(f.Directives) != 0 || f.SelectionSet == nil || len(f.SelectionSet.Selections) == 0 ||
+					len(f.SelectionSet.Fragments) != 0 || !flatInScope(f.SelectionSet, f.On, rets) {
 					return false
 				}
 			}
@@ -412,6 +421,11 @@ func main() {
 	run := vh.NewRun("C06", o)
 	run.Rule = "a case = (random set of field funcs over catalogue objects A-D, unions, a plain object; scalars, enums, lists, nullable and non-null results; arguments incl. input objects) x (random partition over 2-4 services, 20% of the fields on two services, random key struct per (service, object)) x (ServiceSelector choice) x (query: aliases, repeated aliases with different sub-selections at several levels (55%), @skip/@include (55%; literals and variables, both on one node, on field selections incl. __typename and repeated aliases, on inline fragments and on fragment spreads), inline / nested / named fragments, unions, arguments, depth 2-4) fragments typed on a union spread under its member objects and under the union) over a seeded world with nulls, null list elements and empty lists; non-trivial = gateway and monolith both answer, at least 2 sub-requests reach services and the answer is not {}; distinct by (partition, selector, query text)"
 	r := vh.NewRng(o.Seed)
+	if o.Tier == "thorough" {
+		redeployBudget = 1500
+	} else if o.Search != "" {
+		redeployBudget = 400
+	}
 
 	var cases []Case
 	searching = o.Search != ""
